@@ -20,7 +20,7 @@ def _finite(E, arrs):
                 E.assume(sym.wrapb(z3.Not(z3.Or(z3.fpIsNaN(v.t), z3.fpIsInf(v.t)))), check=False)
 
 
-def body_kernel(E, shifts, far):
+def body_kernel(E, shifts, far, onesided=None):
     Model = E.get('Model')
     x0 = E.vec('x0_', 1, fp=True)
     xl = E.vec('xl', 1, fp=True)
@@ -31,6 +31,10 @@ def body_kernel(E, shifts, far):
     if far:
         # moderate magnitudes, bound in another binade than the base point (the region where rounding bites)
         E.assume(E.all([x0[0] >= 1, x0[0] <= 2, xl[0] >= E.const('0.25'), xl[0] <= E.const('0.5'), xu[0] <= 4]), check=False)
+    elif onesided == 'no-lower':      # an absent bound is stored by solve() as -1e20 / +1e20
+        E.assume(E.all([x0[0] >= -1000, x0[0] <= 1000, xl[0] == E.const(-1e20), xu[0] <= 1000]), check=False)
+    elif onesided == 'no-upper':
+        E.assume(E.all([x0[0] >= -1000, x0[0] <= 1000, xl[0] >= -1000, xu[0] == E.const(1e20)]), check=False)
     else:
         E.assume(E.all([x0[0] >= -1000, x0[0] <= 1000, xl[0] >= -1000, xu[0] <= 1000]), check=False)
     E.assume(E.all([p[0] >= -1000, p[0] <= 1000]), check=False)
@@ -111,6 +115,12 @@ def harnesses(tier, seed):
                               bounds="IEEE binary64 (round to nearest even), one coordinate (the code is elementwise => all n), %d base shift(s), |values| <= 1000" % k,
                               assumptions=["finite inputs, xl <= x0 <= xu; each base shift lies in the current shifted box (it is the iterate)"],
                               expect=['as_absolute_coordinates-output-exactly-in-box[shifts=%d]' % k], nproc=1, max_replays=2))
+    for side in ('no-lower', 'no-upper'):
+        hs.append(Harness("binary64-kernel[shifts=0,one-sided,%s]" % side, 'dfverif.checks.c01', 'body_kernel',
+                          params=dict(shifts=0, far=False, onesided=side), cfg=core.Cfg(fork_queries=True, qtimeout_ms=to, logic='QF_FP'), functions=FUNCS,
+                          bounds="IEEE binary64, one coordinate, one bound absent (stored as -1e20 / +1e20), the other and x0 within 1000",
+                          assumptions=["finite inputs, xl <= x0 <= xu"],
+                          expect=['as_absolute_coordinates-output-exactly-in-box[shifts=0]'], nproc=1, max_replays=2))
     hs.append(Harness("binary64-scaling", 'dfverif.checks.c01', 'body_scaling', params={}, cfg=core.Cfg(fork_queries=True, qtimeout_ms=to),
                       functions=FUNCS, bounds="IEEE binary64, one coordinate, |bounds| <= 1000, x in [0,1]",
                       assumptions=["finite inputs, xl < xu"], expect=['remove_scaling-of-unit-box-point-exactly-in-box'], nproc=1, max_replays=2))
